@@ -396,9 +396,23 @@ async fn step(c: usize, cop: Cop) {
             match hh {
                 H::Owning(any) => {
                     let o = op(c, hid, ev::K_CONSUME);
-                    let r = on_owning!(any, a => a.consume().await.map(|a| a.log));
-                    e(&[ev::DROP as usize, hid]);
-                    ret_vals(o, r);
+                    if o % 2 == 1 {
+                        // the synchronous variant: stop, hand out the join future, let go of the
+                        // owning address at once; the value comes from the join future
+                        let j = on_owning!(any, a => a.consume_sync().map(Wrap::wj));
+                        e(&[ev::DROP as usize, hid]);
+                        let r = match j {
+                            Ok(AnyJoin::T0(j)) => j.await.map(|a| a.log).ok_or(hannibal::error::ActorError::AlreadyStopped),
+                            Ok(AnyJoin::T1(j)) => j.await.map(|a| a.log).ok_or(hannibal::error::ActorError::AlreadyStopped),
+                            Ok(AnyJoin::T2(j)) => j.await.map(|a| a.log).ok_or(hannibal::error::ActorError::AlreadyStopped),
+                            Err(er) => Err(er),
+                        };
+                        ret_vals(o, r);
+                    } else {
+                        let r = on_owning!(any, a => a.consume().await.map(|a| a.log));
+                        e(&[ev::DROP as usize, hid]);
+                        ret_vals(o, r);
+                    }
                 }
                 other => put_back(h, HEnt { hid, aid, h: other, spent }),
             }
